@@ -311,6 +311,126 @@ class PlaceholderGen:
         return "\n".join(lines) + "\n"
 
 
+class NestGen:
+    """Random functions whose expressions NEST several mutation sites of ONE operator through plain (non-list)
+    fields: a node an operator rewrites directly (`not …`, `-…`, `+…`, `~…`, a slice, an f-string, a lambda) sits
+    in a node-valued field (`If.test`, `Return.value`, `Assign.value`, `UnaryOp.operand`, `BinOp.left`,
+    `Subscript.slice`, `Slice.lower`, `FormattedValue.value`, `Lambda.body`, `IfExp.test`, `keyword.value` …) and
+    contains, 1-3 levels further down, more nodes the SAME operator rewrites.  While the enumeration is below the
+    outer node, `_generic_visit_real_node` must have re-linked the original outer node into its field: these are
+    the shapes on which a stale replacement in a plain field becomes visible.  Nothing generated here is ever
+    executed (function bodies only)."""
+
+    FAMILIES = ["not", "neg", "inv", "slice", "fstr", "lam"]
+    BIN = ["+", "-", "*", "//", "%", "**", "<<", ">>", "&", "|", "^"]
+    CMP = ["<", "<=", "==", "!=", ">", ">=", "in", "not in"]
+
+    def __init__(self, rng):
+        self.r = rng
+        self.q = 0
+
+    def atom(self, names):
+        r = self.r
+        return r.choice(names) if r.random() < 0.75 else r.choice(["0", "1", "2", "10", "1.5", "'k'", "True", "None"])
+
+    def connect(self, names, inner):
+        """0-2 layers that are NOT rewritten by the family's operator around `inner` (plain and list fields)"""
+        r = self.r
+        for _ in range(r.choice([0, 1, 1, 2])):
+            a = self.atom(names)
+            x = r.randrange(9)
+            if x == 0:
+                inner = f"({a} {r.choice(self.BIN)} {inner})"
+            elif x == 1:
+                inner = f"({inner} {r.choice(self.BIN)} {a})"
+            elif x == 2:
+                inner = f"({a} {r.choice(['and', 'or'])} {inner})"
+            elif x == 3:
+                inner = f"({inner} {r.choice(self.CMP)} {a})"
+            elif x == 4:
+                inner = f"({a} if {inner} else {self.atom(names)})"
+            elif x == 5:
+                inner = f"abs({inner})" if r.random() < 0.5 else f"max({a}, key={inner})"
+            elif x == 6:
+                inner = f"{r.choice(names)}[{inner}]"
+            elif x == 7:
+                inner = f"({inner}).real"
+            else:
+                inner = f"({inner}, {a})[0]"
+        return inner
+
+    def wrap(self, fam, names, inner):
+        """one node of the family with `inner` below it"""
+        r = self.r
+        if fam == "not":
+            return f"(not {inner})"
+        if fam == "neg":
+            return f"({r.choice(['-', '+'])}{inner})"
+        if fam == "inv":
+            return f"(~{inner})"
+        if fam == "slice":
+            n, a = r.choice(names), self.atom(names)
+            return r.choice([f"{n}[{inner}:{a}]", f"{n}[{a}:{inner}]", f"{n}[{inner}:]", f"{n}[:{inner}:{a}]",
+                             f"{n}[{a}:{a}:{inner}]", f"{n}[{inner}:{a}:{self.atom(names)}]"])
+        if fam == "fstr":
+            self.q += 1
+            quote = "'" if self.q % 2 else '"'
+            return r.choice([f"f{quote}<{{{inner}}}>{quote}", f"f{quote}{{{inner}!r}}-{{{self.atom(names)}}}{quote}",
+                             f"f{quote}a{{{inner}:>4}}{quote}"])
+        v = f"v{self.q}"
+        self.q += 1
+        return r.choice([f"(lambda {v}: {inner})", f"(lambda {v}, w=1: ({v}, {inner}))", f"(lambda: {inner})"])
+
+    def expr(self, names, depth, fam=None):
+        """`depth` nested nodes of (mostly) one family"""
+        r = self.r
+        fam = fam or r.choice(self.FAMILIES)
+        if depth <= 0:
+            return self.atom(names)
+        nxt = fam if r.random() < 0.8 else r.choice(self.FAMILIES)
+        inner = self.expr(names, depth - 1, nxt)
+        if fam in ("fstr",) and "'" in inner and '"' in inner and depth > 3:
+            inner = self.atom(names)
+        return self.wrap(fam, names, self.connect(names, inner) if depth > 1 or r.random() < 0.5 else inner)
+
+    def function(self, name, indent=""):
+        r = self.r
+        names = ["a", "b", "xs"]
+        out = [f"{indent}def {name}(a, b=2, *xs):"]
+        body = []
+        for _ in range(r.randint(1, 3)):
+            e = self.expr(names, r.randint(2, 4))
+            x = r.randrange(10)
+            if x == 0:
+                body.append(f"if {e}:")
+                body.append(f"    a = {self.expr(names, 2)}")
+            elif x == 1:
+                body.append(f"b = {e}")
+            elif x == 2:
+                body.append(f"b += {e}")
+            elif x == 3:
+                body.append(f"while {e}:")
+                body.append("    break")
+            elif x == 4:
+                body.append(f"assert {e}, {self.expr(names, 2)}")
+            elif x == 5:
+                body.append(f"b = a if {e} else {self.expr(names, 2)}")
+            elif x == 6:
+                body.append(f"for i in {e}:")
+                body.append(f"    b = {self.expr(names + ['i'], 2)}")
+            elif x == 7:
+                body.append(f"b = sorted(xs, key={e})")
+            elif x == 8:
+                body.append(f"c: int = {e}")
+            else:
+                body.append(f"b = [{e} for i in xs if {self.expr(names + ['i'], 2)}]")
+        body.append(f"return {self.expr(names, r.randint(2, 4))}")
+        return out + [indent + "    " + l for l in body]
+
+    def module(self):
+        return "\n".join(sum((self.function(f"n{i}") for i in range(self.r.randint(1, 2))), [])) + "\n"
+
+
 class Interner:
     def __init__(self):
         self.d: dict[str, int] = {}
@@ -394,8 +514,8 @@ class C28(PropertyCheck):
     prop_modules = ["PynguinModel.Props.C28"]
     extra_modules = ["PynguinModel.Model.Mutants"]
     driver = "Driver/C28.lean"
-    n_quick = 24
-    n_thorough = 160
+    n_quick = 16
+    n_thorough = 120
     n_search = 60
     rule = ("one case = one module (progen program, module with mixed node/placeholder child lists, operator-rich "
             "snippet or small stdlib module) x one mutator "
@@ -437,13 +557,20 @@ class C28(PropertyCheck):
 
     def gen_case(self, rng):
         r = rng.random()
-        if r < 0.35:
+        if r < 0.22:
+            # several mutation sites of ONE operator nested through plain fields (alone, or behind other code)
+            src = NestGen(rng).module()
+            kind = "nest"
+            if rng.random() < 0.3:
+                src = "BASE = {'x': 1}\nTOTAL = 0\n" + "\n".join(PlaceholderGen(rng).function("mixed")) + "\n" + src
+                kind = "nest+ph"
+        elif r < 0.42:
             src = progen.gen_module(rng, n_funcs=1, with_class=rng.random() < 0.3, with_generator=False)
             kind = "gen"
             if rng.random() < 0.4:      # a generated module that also has mixed child lists
                 src = src + "\n" + "BASE = {'x': 1}\nTOTAL = 0\n" + "\n".join(PlaceholderGen(rng).function("mixed")) + "\n"
                 kind = "gen+ph"
-        elif r < 0.6:
+        elif r < 0.62:
             src = PlaceholderGen(rng).module()
             kind = "ph"
         elif r < 0.9 or not self._stdlib():
@@ -454,6 +581,8 @@ class C28(PropertyCheck):
                 src = src + "\n" + "\n".join(progen.Gen(rng).function("extra"))+ "\n"
             elif x < 0.6:
                 src = src + "\n" + ("" if k == 3 else "BASE = {'x': 1}\nTOTAL = 0\n") + "\n".join(PlaceholderGen(rng).function("mixed")) + "\n"
+            elif x < 0.8:
+                src = src + "\n" + "\n".join(NestGen(rng).function("nested")) + "\n"
             kind = f"snippet{k}"
         else:
             name = rng.choice(self._stdlib())
@@ -464,6 +593,11 @@ class C28(PropertyCheck):
         c["ops"] = sorted(rng.sample(range(28), nops)) if nops else []
         if kind.startswith("stdlib") and not c["ops"]:
             c["ops"] = sorted(rng.sample(range(28), 6))
+        if kind.startswith("nest") and c["ops"]:
+            # keep some of the operators that rewrite the nested families (deletion of not / - / ~, slices,
+            # f-strings, lambdas) among the selected ones
+            fam = self._family_ops()
+            c["ops"] = sorted(set(c["ops"]) | set(rng.sample(fam, rng.randint(2, len(fam)))))
         m = rng.random()
         if m < 0.25:
             c.update(mode="first", cap=-1, reorder=False)
@@ -476,7 +610,30 @@ class C28(PropertyCheck):
             c.update(mode="hom", strategy=rng.choice(["FirstToLast", "EachChoice", "BetweenOperators", "Random"]),
                      order=rng.choice([1, 2, 2, 3, 4]), rngseed=rng.randint(0, 10**6))
         c["stop"] = rng.randint(1, 12) if rng.random() < 0.3 else -1
+        if c["mode"] == "hom" and c["stop"] > 4:
+            # the interpreted driver needs seconds per abandoned higher-order round on large modules with many operators
+            c["stop"] = 1 + c["stop"] % 4
+        # a history of calls on ONE MutationController wrapping this mutator: -2 = mutant_count(), -1 =
+        # create_mutants() consumed to the end, k >= 1 = create_mutants() abandoned after k mutants
+        if rng.random() < 0.75:
+            n = rng.randint(2, 3 if kind.startswith("stdlib") else 5)
+            calls = [rng.choice([-2, -2, -1, -1, rng.randint(1, 9)]) for _ in range(n)]
+            if rng.random() < 0.6:      # count asked (again) after a complete run
+                i = rng.randrange(len(calls))
+                calls[i:i + 1] = [-1, -2]
+            if -2 not in calls:
+                calls.insert(rng.randint(0, len(calls)), -2)
+            if c["mode"] == "hom":      # abandoned higher-order rounds are slow in the interpreted driver
+                calls = [min(x, 2) if x > 0 else x for x in calls]
+            c["calls"] = calls
         return c
+
+    def _family_ops(self):
+        import pynguin.assertion.mutation_analysis.operators as mo
+        allops = [*mo.standard_operators, *mo.experimental_operators]
+        want = {"ArithmeticOperatorDeletion", "ConditionalOperatorDeletion", "LogicalOperatorDeletion",
+                "SliceIndexRemove", "FStringReplacement", "LambdaReplacement"}
+        return [i for i, op in enumerate(allops) if op.__name__ in want]
 
     # -- implementation adapter ---------------------------------------------------------------
     def _load(self, case):
@@ -540,6 +697,7 @@ class C28(PropertyCheck):
         # (0) the original tree and the operators' visitor tables (real visitor methods, called directly)
         tree, paths = fresh()
         orig = enc(tree, intern)
+        orig_hash = thash(orig)
         dump0 = ast.dump(tree)
         optabs = []
         errs: list[str] = []
@@ -571,9 +729,21 @@ class C28(PropertyCheck):
         tree, paths = fresh()
         full = []
 
+        full_bad: list[dict] = []
+
+        def outside_mutated(e, ks):
+            """paths at which the mutant `e` differs from the original outside the subtrees of its mutated nodes"""
+            mp = [tuple(k[1]) for k in ks]
+            return mp, [list(x) for x in diff_paths(orig, e) if not any(x[:len(q)] == q for q in mp)]
+
         def run_full():
             for muts, mutant in mu.FirstOrderMutator(ops).mutate(tree, module):
-                full.append([[key(m, paths) for m in muts], thash(enc(mutant, intern))])
+                e = enc(mutant, intern)
+                ks = [key(m, paths) for m in muts]
+                full.append([ks, thash(e)])
+                mp, outside = outside_mutated(e, ks)
+                if outside:
+                    full_bad.append({"at": len(full) - 1, "mutated": [list(q) for q in mp], "differs": outside[:4]})
         guarded("full", run_full, None)
         full_intact = ast.dump(tree) == dump0
 
@@ -631,11 +801,9 @@ class C28(PropertyCheck):
                     e = enc(mutant, intern)
                     ks = [key(m, paths) for m in muts]
                     yields.append([ks, thash(e)])
-                    d = diff_paths(orig, e)
-                    if not d:
+                    if yields[-1][1] == orig_hash:
                         ident[0] += 1
-                    mp = [tuple(k[1]) for k in ks]
-                    outside = [list(x) for x in d if not any(x[:len(q)] == q for q in mp)]
+                    mp, outside = outside_mutated(e, ks)
                     if outside:
                         bad_diffs.append({"at": len(yields) - 1, "mutated": [list(q) for q in mp], "differs": outside[:4]})
                     n += 1
@@ -649,6 +817,66 @@ class C28(PropertyCheck):
             randomness.Random = saved_random
         intact = ast.dump(tree) == dump0
         final = thash(enc(tree, intern))
+
+        # (4) a history of calls on ONE real MutationController wrapping the configured mutator.  Only building the
+        # mutant MODULES is stubbed (`create_module` compiles and executes every mutant: not part of the property,
+        # and a mutated module body may not terminate); `create_mutants` / `mutant_count` are the real methods.
+        calls = case.get("calls") or []
+        ctl_out: list[int] = []
+        ctl_changed: list[int] = []
+        ctl_groups: list = []
+        if calls:
+            import types
+
+            import pynguin.assertion.mutation_analysis.controller as cm
+            tree, paths = fresh()
+            mutator4 = self._mutator(case, ops)
+            cur: list = []
+            if case["mode"] == "hom":
+                strat4 = mutator4.hom_strategy
+                gen4, paths4 = strat4.generate, paths
+
+                def generate4(mutations):
+                    for g in gen4(mutations):
+                        cur.append([[ops.index(m.operator),
+                                     per_index.get((ops.index(m.operator), paths4.get(id(m.node), (-1,)),
+                                                    name_id.get(m.visitor_name, -1)), -1)] for m in g])
+                        yield g
+                strat4.generate = generate4
+            controller = MutationController(mutator4, tree, module)
+            saved_create = cm.create_module
+            cm.create_module = lambda _ast, name: types.ModuleType(name)
+            have_groups = False
+            try:
+                for j, c in enumerate(calls):
+                    reseed()
+                    del cur[:]
+
+                    def one_call(c=c):
+                        if c == -2:
+                            return controller.mutant_count()
+                        n = 0
+                        gen = controller.create_mutants()
+                        try:
+                            for _module, _mutations in gen:
+                                n += 1
+                                if c >= 0 and n >= c:
+                                    break
+                        finally:
+                            gen.close()
+                        return n
+                    got = guarded(f"controller call {j} of {calls}", one_call, -1)
+                    ctl_out.append(got)
+                    if ast.dump(tree) != dump0:
+                        ctl_changed.append(j)
+                    if c < 0 and not have_groups and got >= 0:
+                        ctl_groups, have_groups = [list(g) for g in cur], True
+            finally:
+                cm.create_module = saved_create
+            self.count("controller-calls", len(calls))
+            if case["mode"] == "first" and 0 <= case["cap"] < len(full) and any(
+                    a == -1 and -2 in calls[i + 1:] for i, a in enumerate(calls)):
+                self.count("controller:count-after-complete-capped-run")
 
         # model line
         sizes = [sum(1 for k, _ in full if k[0][0] == o) for o in range(len(ops))]
@@ -664,13 +892,15 @@ class C28(PropertyCheck):
             line = None
         else:
             line = jdump({"tree": orig, "ops": optabs, "mode": mode, "cap": case.get("cap", -1),
-                          "draws": draws, "groups": groups, "stop": stop})
+                          "draws": draws, "groups": groups, "stop": stop,
+                          "calls": calls,
+                          "ctlGroups": ctl_groups})
         self._lines[jdump(case)] = line
         self.count("mutants", len(yields))
         return {"full": full, "fullIntact": full_intact, "tablesPure": tables_pure, "reported": reported,
                 "countIntact": count_intact, "uncapped": uncapped_n, "yields": yields, "intact": intact,
                 "final": final, "orig": thash(orig), "badDiffs": bad_diffs, "identical": identical,
-                "err": errs[0] if errs else err,
+                "err": errs[0] if errs else err, "fullBad": full_bad, "ctl": ctl_out, "ctlChanged": ctl_changed,
                 "mode": mode, "nodes": len(paths), "draws": draws, "ngroups": len(groups)}
 
     def model_line(self, case):
@@ -681,7 +911,8 @@ class C28(PropertyCheck):
         if "bad-op" in mo or mo.get("err") is not None or io["err"] is not None:
             return False
         return (mo["count"] == len(io["full"]) and mo["yields"] == io["yields"]
-                and mo["intact"] == io["intact"] and mo["final"] == io["final"])
+                and mo["intact"] == io["intact"] and mo["final"] == io["final"]
+                and mo["ctl"] == io["ctl"])
 
     # -- the property on the implementation ---------------------------------------------------
     def oracle(self, case, io):
@@ -718,6 +949,26 @@ class C28(PropertyCheck):
             if not cut and not extra and got != fullc:
                 fs.append(Failure({"mutator": mut, "class": "reordered-not-a-permutation"},
                                   f"reordered enumeration yields {len(io['yields'])} of the {len(io['full'])} mutants"))
+        if io.get("fullBad"):
+            fs.append(Failure({"mutator": "first-order", "class": "mutant-differs-outside-mutated-nodes",
+                               "enumeration": "full"},
+                              f"a mutant of the full enumeration differs from the original outside its mutated "
+                              f"node: {io['fullBad'][0]}", detail=io["fullBad"][:3]))
+        calls = case.get("calls") or []
+        for j in io.get("ctlChanged", [])[:1]:
+            fs.append(Failure({"mutator": mut, "class": "original-changed", "enumeration": "controller-call"},
+                              f"the original tree's ast.dump differs after call {j} of the controller history {calls} "
+                              f"(-2 = mutant_count(), -1 = create_mutants() to the end, k = abandoned after k mutants)"))
+        for j, (c, got) in enumerate(zip(calls, io.get("ctl", []))):
+            if c == -2 and got != io["uncapped"] and got >= 0:
+                before = ["nothing" if j == 0 else ("count" if calls[j - 1] == -2 else
+                                                    "complete-run" if calls[j - 1] == -1 else "abandoned-run")][0]
+                fs.append(Failure({"mutator": mut, "class": "controller-count-differs-from-enumeration", "after": before},
+                                  f"MutationController.mutant_count() = {got} as call {j} of the history {calls} on one "
+                                  f"controller (-2 = mutant_count(), -1 = create_mutants() to the end, k = abandoned "
+                                  f"after k mutants; mutant cap {case.get('cap', -1)}), but the full enumeration of the "
+                                  f"same mutator yields {io['uncapped']} mutant(s)"))
+                break
         if io["reported"] != io["uncapped"]:
             fs.append(Failure({"mutator": mut, "class": "count-differs-from-enumeration"},
                               f"mutant_count() = {io['reported']} but the uncapped enumeration of the same mutator "
